@@ -116,6 +116,7 @@ type sched struct {
 	stuckDur time.Duration
 	tokLog   []string
 	noEager  bool
+	stuck    bool
 }
 
 var s *sched
@@ -127,7 +128,7 @@ func BeginControlled() {
 		panic("verifrt: nested controlled mode")
 	}
 	s = &sched{events: make(chan struct{}, 1024), names: map[any]string{},
-		nameSeq: map[string]int{}, maxPts: 20000, stuckDur: 20 * time.Second}
+		nameSeq: map[string]int{}, maxPts: 20000, stuckDur: 8 * time.Second}
 	controlled.Store(true)
 }
 
@@ -217,7 +218,12 @@ func schedSpawn(f func(), daemon bool, name string) *Thread {
 		t.parked = false
 		sc.tlog("eagerstart:T%d by T%d", t.ID, parent.ID)
 		t.wake <- struct{}{}
-		<-w
+		select {
+		case <-w:
+		case <-time.After(sc.stuckDur):
+			// the child blocked in something the scheduler does not own: engine limitation, reported by RunPhase
+			sc.stuck = true
+		}
 		sc.cur = parent
 		sc.tlog("eagerdone:T%d", t.ID)
 	}
@@ -341,6 +347,10 @@ func RunPhase(chooser Chooser, names []string, mains ...func()) PhaseResult {
 		if len(sc.panics) > 0 {
 			res.Panics = append(res.Panics, sc.panics...)
 			sc.panics = nil
+		}
+		if sc.stuck {
+			res.Stuck = true
+			return res
 		}
 		for _, t := range sc.threads {
 			if !t.done && !t.parked {
